@@ -1127,7 +1127,7 @@ func (c *Check) fixedC12() []*plan.Plan {
 // library budgets, pools or limits per process is under pressure here.
 func (c *Check) heavyRacePlans(run *int) []*plan.Plan {
 	var out []*plan.Plan
-	for k := 0; k < 2; k++ {
+	for k := 0; k < 4; k++ {
 		p := c.newPlan("heavy-pages", *run, uint64(k), "race")
 		p.Plain = true
 		*run++
@@ -1143,7 +1143,11 @@ func (c *Check) heavyRacePlans(run *int) []*plan.Plan {
 			p.Options = append(p.Options, optWithURL("o"+id, d.URL, uint(t%2), 0))
 			p.Tasks = append(p.Tasks, []plan.Op{{Op: "Apply", Tree: "t" + id, Opt: "o" + id}})
 		}
-		p.Schedule = gen.RandSchedule(gen.NewRand(uint64(77+k)), nt, 5000, 200)
+		// from very dense (tasks enter each phase together) to coarse
+		p.Schedule = gen.RandSchedule(gen.NewRand(uint64(77+k)), nt, []int{12, 60, 400, 5000}[k], 400)
+		if k == 0 {
+			p.Schedule.After = "cycle"
+		}
 		out = append(out, p)
 	}
 	return out
